@@ -451,7 +451,7 @@ def parse_rvalue(s):
         parts = split_top(inner, ';')
         if len(parts) == 2 and re.fullmatch(r'\d+', parts[1]):
             return ('repeat', parse_operand(parts[0]), int(parts[1]))
-        if len(parts) == 2 and re.fullmatch(r'[A-Z]\w{0,3}', parts[1]):
+        if len(parts) == 2 and re.fullmatch(r'[A-Z][0-9]?', parts[1]):
             return ('repeat', parse_operand(parts[0]), parts[1])        # const generic length
         return ('array', [parse_operand(a) for a in split_top(inner)])
     if s.startswith('{closure@') or s.startswith('{coroutine@'):
